@@ -1,6 +1,7 @@
 package spine
 
 import (
+	"slices"
 	"sync"
 	"time"
 
@@ -130,7 +131,8 @@ func (r *EntityLocal) Features() []api.FeatureLocalInterface {
 	r.mux.Lock()
 	defer r.mux.Unlock()
 
-	return r.features
+	// return a copy, the caller uses it without the lock
+	return slices.Clone(r.features)
 }
 
 // add a new usecase
@@ -269,14 +271,14 @@ func (r *EntityLocal) RemoveAllUseCaseSupports() {
 
 // Remove all subscriptions
 func (r *EntityLocal) RemoveAllSubscriptions() {
-	for _, item := range r.features {
+	for _, item := range r.Features() {
 		item.RemoveAllRemoteSubscriptions()
 	}
 }
 
 // Remove all bindings
 func (r *EntityLocal) RemoveAllBindings() {
-	for _, item := range r.features {
+	for _, item := range r.Features() {
 		item.RemoveAllRemoteBindings()
 	}
 }
